@@ -456,7 +456,12 @@ func TestVerifC21(t *testing.T) {
 		next := 0
 		var future []vH // hashes of reports that will only become available in a later block
 		var known []vH
-		tau := 10 + r.IntN(100)
+		hiBase := 0
+		if r.IntN(4) == 0 { // high up in the 32-bit slot range (epoch-aligned): narrowed or signed slot arithmetic goes wrong only there
+			hiBase = []int{(1 << 16) / E, (1<<16)/E - 1, (1 << 31) / E, (1<<31)/E - 1, (1<<32)/E - 60}[r.IntN(5)] * E
+			h.Inc("histories_high_in_the_slot_range")
+		}
+		tau := hiBase + 10 + r.IntN(100)
 		blocks := 2 + r.IntN(28)
 		sig := []byte{}
 		for b := 0; b < blocks; b++ {
